@@ -1312,6 +1312,8 @@ _UPTO_OLD = """    return nested_combine(
         extra_config,
     )"""
 MUTANTS = [
+    ("parse_string_copies_only_for_spaced_directive", "sqlfluff/core/linter/linter.py", "        config = (config or self.config).copy()",
+     "        config = config or self.config\n        if \"-- sqlfluff:\" in in_str:\n            config = config.copy()"),
     ("nested_combine_no_deepcopy", "sqlfluff/core/helpers/dict.py", "                r[k] = deepcopy(d[k])", "                r[k] = d[k]"),
     ("nested_combine_first_wins", "sqlfluff/core/helpers/dict.py", "            else:\n                # In normal operation, these nested dicts should only contain",
      "            elif k not in r:\n                # In normal operation, these nested dicts should only contain"),
